@@ -49,7 +49,8 @@ def run(tier):
         opath = os.path.join(work, "out.ndjson")
         p = vlib.run_cmd([bins["vh_plan"], "reconcile-cases", cpath, opath, str(vlib.seed())], timeout=1500)
         if p.returncode != 0:
-            raise vlib.ToolError("vh_plan reconcile-cases failed: " + p.stderr.decode()[-2000:])
+            vlib.harness_died(vd, "vh_plan reconcile-cases", p)
+            return vd.finish()
         summary = None
         for line in open(opath):
             d = json.loads(line)
@@ -75,7 +76,8 @@ def run(tier):
             tpath = os.path.join(work, f"rand{k}.ndjson")
             p = vlib.run_cmd([bins["vh_plan"], "reconcile-random", str(m), str(vlib.seed() * 1000 + k), tpath])
             if p.returncode != 0:
-                raise vlib.ToolError("vh_plan reconcile-random failed: " + p.stderr.decode()[-2000:])
+                vlib.harness_died(vd, "vh_plan reconcile-random", p)
+                return vd.finish()
             r = tlc("ReconcileTrace", "ReconcileTrace.cfg", workers=1, timeout=900,
                     env_extra={"TRACE": tpath}, depth_first=True)
             res = r.payloads.get("RESULT", [])
